@@ -485,6 +485,13 @@ func Permute(s *schema.Schema, seed int64) {
 	for _, t := range s.Tables {
 		shuffle(len(t.Columns), func(i, j int) { t.Columns[i], t.Columns[j] = t.Columns[j], t.Columns[i] })
 		shuffle(len(t.Indexes), func(i, j int) { t.Indexes[i], t.Indexes[j] = t.Indexes[j], t.Indexes[i] })
+		// key parts carry their position (SeqNo, which the differ sorts by): listing them in another order is the same key
+		for _, idx := range append(append([]*schema.Index{}, t.Indexes...), t.PrimaryKey) {
+			if idx != nil {
+				ps := idx.Parts
+				shuffle(len(ps), func(i, j int) { ps[i], ps[j] = ps[j], ps[i] })
+			}
+		}
 		shuffle(len(t.ForeignKeys), func(i, j int) { t.ForeignKeys[i], t.ForeignKeys[j] = t.ForeignKeys[j], t.ForeignKeys[i] })
 		// checks live among the attributes: shuffle the attribute list
 		shuffle(len(t.Attrs), func(i, j int) { t.Attrs[i], t.Attrs[j] = t.Attrs[j], t.Attrs[i] })
